@@ -54,11 +54,17 @@ impl Judgement {
     }
 }
 
+/// Above this many distinct digests the set becomes an adaptive sample (bounded memory in thorough runs).
+pub const DIGEST_CAP: usize = 400_000;
+
 /// Per-worker (then merged) statistics of a batch.
 #[derive(Default)]
 pub struct Stats {
     pub c: Counters,
+    /// distinct digests: exact while there are at most `DIGEST_CAP`; beyond that an adaptive sample
+    /// (only digests whose low `digest_shift` bits are zero are kept), see `distinct()`
     pub digests: BTreeSet<u64>,
+    pub digest_shift: u32,
     pub samples: Vec<Json>,
     /// digest of everything observable about the current run (event
     /// histories, results, interleavings); logged per run for the determinism batches
@@ -80,7 +86,24 @@ impl Stats {
         self.fold(crate::fnv64(s.as_bytes()));
     }
     pub fn nontrivial(&mut self, digest: u64) {
-        self.digests.insert(digest);
+        // one more mixing step, so that the low bits are uniform whatever produced the digest
+        let digest = crate::mix(digest, 0x5851_f42d_4c95_7f2d);
+        if digest.trailing_zeros() >= self.digest_shift {
+            self.digests.insert(digest);
+            self.shrink_digests();
+        }
+    }
+    fn shrink_digests(&mut self) {
+        while self.digests.len() > DIGEST_CAP {
+            self.digest_shift += 1;
+            let sh = self.digest_shift;
+            self.digests.retain(|d| d.trailing_zeros() >= sh);
+        }
+    }
+    /// Number of distinct digests seen: exact up to `DIGEST_CAP`, above that the adaptive-sampling
+    /// estimate |sample| * 2^shift (relative standard error about 1/sqrt(|sample|), i.e. < 0.5 %).
+    pub fn distinct(&self) -> u64 {
+        (self.digests.len() as u64) << self.digest_shift
     }
     pub fn sample(&mut self, max: usize, f: impl FnOnce() -> Json) {
         if self.samples.len() < max {
@@ -91,18 +114,28 @@ impl Stats {
         json!({
             "c": self.c.to_json(),
             "digests": self.digests.iter().map(|d| crate::hex(*d)).collect::<Vec<_>>(),
+            "digest_shift": self.digest_shift,
             "samples": self.samples,
             "run_acc": crate::hex(self.run_acc),
         })
     }
     pub fn merge_json(&mut self, j: &Json, max_samples: usize) {
         self.c.merge(&Counters::from_json(&j["c"]));
+        let other_shift = j["digest_shift"].as_u64().unwrap_or(0) as u32;
+        if other_shift > self.digest_shift {
+            self.digest_shift = other_shift;
+            let sh = self.digest_shift;
+            self.digests.retain(|d| d.trailing_zeros() >= sh);
+        }
         if let Some(a) = j["digests"].as_array() {
             for d in a {
                 if let Some(v) = d.as_str().and_then(|s| u64::from_str_radix(s, 16).ok()) {
-                    self.digests.insert(v);
+                    if v.trailing_zeros() >= self.digest_shift {
+                        self.digests.insert(v);
+                    }
                 }
             }
+            self.shrink_digests();
         }
         if let Some(a) = j["samples"].as_array() {
             for s in a {
